@@ -187,6 +187,23 @@ impl Check for C08 {
         }
         let ss = sites(&r.run, cfg.c);
         let subs = enumerate(&cfg, &r, seed, case["frac"].as_u64().unwrap(), case["thorough"].as_bool().unwrap_or(false));
+        // swarm of multi-fault runs
+        for (i, spec) in random_multi_faults(&cfg, &r, seed, if case["thorough"].as_bool().unwrap_or(false) { 1600 } else { 160 }).iter().enumerate() {
+            if i as u64 % SHARDS != shard {
+                continue;
+            }
+            cx.begin(&serde_json::to_value(spec).unwrap());
+            let run = run_attack(spec, Some(r.run.clone()));
+            out.evals += 1;
+            out.sim_steps += run.res.steps;
+            out.merge_fired(&run.res.fired);
+            if !fault_effective(&run) {
+                continue;
+            }
+            out.count("multi_fault_swarm_runs", 1);
+            out.distinct.push(entropy::fnv(0, serde_json::to_string(&(&spec.faults, cfg.base.seed)).unwrap().as_bytes()));
+            out.violations.extend(c08_oracle(spec, &run, r.steps, &r.alloc));
+        }
         for (i, sub) in subs.iter().enumerate() {
             if i as u64 % SHARDS != shard {
                 continue;
